@@ -242,3 +242,100 @@ Theorem find_returns_indexed_is_the_plain_record_case :
         (D.entry_result (Some known) e).
 Proof. exact plain_records_agree. Qed.
 Print Assumptions find_returns_indexed_is_the_plain_record_case.
+
+(* ================================================================== *)
+(* The HTTP dhstore client.  Every request of the reader-privacy find names the SECOND hash
+   of the multihash looked up, or the SHA-256 of a value key obtained by decrypting the
+   server's own answer; the request path is "/encrypted/multihash/" resp. "/metadata/"
+   followed by the base58 of that hash and nothing else.  The multihash, the value keys
+   (provider ID, context ID) and the metadata never appear in what the store is asked. *)
+Theorem requests_reveal_only_hashes :
+  forall sha seal open st mh qs,
+  find_queries (ideal sha seal open) st mh = Ok qs ->
+  Forall (hashed_query sha mh) qs /\
+  Forall (fun p => p = mh_path_prefix ++ b58 (mh_encode DBL_SHA2_256 (sha (second_prefix ++ mh))) \/
+                   exists vk, p = md_path_prefix ++ b58 (sha vk)) (map request_path qs).
+Proof. exact requests_hashed. Qed.
+Print Assumptions requests_reveal_only_hashes.
+
+(* ---- ties to the Gallina regenerated from the Go source (proofs/GenTie_C12.v) ---- *)
+From Coq Require Import ZArith NArith List Bool Lia String.
+From Lib Require Import Bytes.
+From Model Require Import C12_DHash.
+From Proofs Require Import C12_DHash GenTie_Lib.
+From Gen Require Import Gen_Consts Gen_Funcs_prelude Gen_Funcs_dhash.
+Import ListNotations.
+Local Open Scope Z_scope.
+From Proofs Require Import GenTie_C12.
+
+Theorem gen_tie_DecryptValueKey : forall (P : prims) aes (evk mh : bytes),
+  agreesE (decrypt_aes P (firstn nonce_len evk) (skipn nonce_len evk) mh)
+          (aes (firstn nonce_len evk) (skipn nonce_len evk) mh) ->
+  agrees (decrypt_value_key P evk mh) (dhash_DecryptValueKey aes evk mh).
+Proof. exact GenTie_C12.tie_DecryptValueKey. Qed.
+Print Assumptions gen_tie_DecryptValueKey.
+
+Theorem gen_tie_DecryptMetadata : forall (P : prims) aes (emd vk : bytes),
+  agreesE (decrypt_aes P (firstn nonce_len emd) (skipn nonce_len emd) vk)
+          (aes (firstn nonce_len emd) (skipn nonce_len emd) vk) ->
+  agrees (decrypt_metadata P emd vk) (dhash_DecryptMetadata aes emd vk).
+Proof. exact GenTie_C12.tie_DecryptMetadata. Qed.
+Print Assumptions gen_tie_DecryptMetadata.
+
+Theorem gen_DecryptValueKey_no_panic : forall aes evk mh, dhash_DecryptValueKey aes evk mh <> GoPanic.
+Proof. exact GenTie_C12.DecryptValueKey_no_panic. Qed.
+Print Assumptions gen_DecryptValueKey_no_panic.
+
+Theorem gen_tie_EncryptValueKey : forall (P : prims) (vk mh : bytes),
+  (forall c, encrypt_aes P vk mh <> Panic c) ->
+  match encrypt_value_key P vk mh, dhash_EncryptValueKey (fun p k => to_go3 (encrypt_aes P p k)) vk mh with
+  | Ok b, (b', None) => b = b'
+  | Err _, (_, Some _) => True
+  | _, _ => False
+  end.
+Proof. exact GenTie_C12.tie_EncryptValueKey. Qed.
+Print Assumptions gen_tie_EncryptValueKey.
+
+Theorem gen_tie_EncryptMetadata : forall (P : prims) (md vk : bytes),
+  (forall c, encrypt_aes P md vk <> Panic c) ->
+  match encrypt_metadata P md vk, dhash_EncryptMetadata (fun p k => to_go3 (encrypt_aes P p k)) md vk with
+  | Ok b, (b', None) => b = b'
+  | Err _, (_, Some _) => True
+  | _, _ => False
+  end.
+Proof. exact GenTie_C12.tie_EncryptMetadata. Qed.
+Print Assumptions gen_tie_EncryptMetadata.
+
+Theorem gen_tie_deriveKey : forall (sha : bytes -> bytes) pass,
+  dhash_deriveKey sha pass = ideal_key sha pass.
+Proof. exact GenTie_C12.tie_deriveKey. Qed.
+Print Assumptions gen_tie_deriveKey.
+
+Theorem gen_tie_SecondMultihash : forall (sha : bytes -> bytes) seal open mh,
+  second_multihash (ideal sha seal open) mh
+  = Ok (dhash_SecondMultihash sha (fun d code => (mh_encode (Z.to_N code) d, None)) mh).
+Proof. exact GenTie_C12.tie_SecondMultihash. Qed.
+Print Assumptions gen_tie_SecondMultihash.
+
+Theorem gen_tie_CreateValueKey : forall pid ctx, dhash_CreateValueKey pid ctx = create_value_key pid ctx.
+Proof. exact GenTie_C12.tie_CreateValueKey. Qed.
+Print Assumptions gen_tie_CreateValueKey.
+
+Theorem gen_tie_DecryptAES : forall (sha : bytes -> bytes) seal open (nonce ct pass : bytes),
+  agreesE (decrypt_aes (ideal sha seal open) nonce ct pass)
+          (dhash_DecryptAES bytes bytes (fun k => (k, None)) (fun b => (b, None)) (dhash_deriveKey sha)
+                            (go_open open) nonce ct pass).
+Proof. exact GenTie_C12.tie_DecryptAES. Qed.
+Print Assumptions gen_tie_DecryptAES.
+
+Theorem gen_tie_EncryptAES : forall (sha : bytes -> bytes) seal open (payload pass : bytes),
+  law_sha_min sha ->
+  dhash_EncryptAES bytes bytes (fun k => (k, None))
+     (fun _ n => le64 (Z.to_N n)) (fun b => (b, None)) (dhash_deriveKey sha)
+     (fun a b c d => sha (a ++ b ++ c ++ d)%list) seal payload pass
+  = match encrypt_aes (ideal sha seal open) payload pass with
+    | Ok (n, c) => GoRet (n, c, None)
+    | _ => GoPanic
+    end.
+Proof. exact GenTie_C12.tie_EncryptAES. Qed.
+Print Assumptions gen_tie_EncryptAES.
